@@ -491,19 +491,31 @@ func c22BashAtAfterDelim(cs c22Case) bool {
 	if !list {
 		return false
 	}
+	_ = unq
+	// the splittable text of the word: unquoted values and the joined parameters, with a
+	// placeholder for everything quoted or literal
+	first, _ := utf8.DecodeRuneInString(ifsv)
+	sep := ""
+	if ifsv != "" {
+		sep = string(first)
+	}
+	var sb strings.Builder
 	for _, p := range cs.parts {
-		if (p.kind == 'E' || p.kind == 'C') && hasWD(c22Eff(p.kind, p.val)) {
-			return true
-		}
-	}
-	if unq {
-		for _, v := range cs.params {
-			if hasWD(v) {
-				return true
+		switch p.kind {
+		case 'E', 'C':
+			sb.WriteString(c22Eff(p.kind, p.val))
+		case 'A', 'T':
+			sb.WriteString(strings.Join(cs.params, sep))
+		case 'D':
+			if len(p.ds) == 1 && p.ds[0].kind == 'a' && len(cs.params) == 0 {
+				continue // "$@" without parameters is nothing at all
 			}
+			sb.WriteString("\x01")
+		default:
+			sb.WriteString("\x01")
 		}
 	}
-	return false
+	return hasWD(sb.String())
 }
 
 // assignment context: `v=WORD` then print.  witness `asg …`.
